@@ -171,14 +171,24 @@ fn main() {
                 for (gi, x0) in [vec![0.0; n], xs.clone(), [0.5, -2.0, 1.0][..n].to_vec()].iter().enumerate() {
                     for &tol in [1e-12, 1e-6].iter() {
                         for &s in SOLVERS.iter() {
-                            // Only CG (on the SPD members) is judged here: on reducible / triangular members of this
-                            // lattice the Lanczos-type methods (BiCG, BiCGSTAB, QMR) meet exact breakdowns (zero shadow
-                            // inner products) that are inherent to the methods - see DESIGN.md section 6, C09.
-                            if s != Solver::Cg || !spd {
+                            if s == Solver::Cg && !spd {
+                                continue;
+                            }
+                            // Only CG (on the SPD members) is judged on this lattice: its members meet exact Lanczos
+                            // breakdowns of BiCG / BiCGSTAB / QMR far too often (5 256 irreducible and 5 800 reducible
+                            // failing runs), see DESIGN.md section 6, C09 and the representative known findings below.
+                            if s != Solver::Cg {
                                 continue;
                             }
                             acc.hit("solver runs");
-                            let key = || format!("{:?} A={:?} b={:?} x0={:?} tol={:e}", s, d, b, x0, tol);
+                            let irreducible = {
+                                // strongly connected digraph of the non-zero pattern (n <= 3)
+                                let mut reach = vec![vec![false; n]; n];
+                                for i in 0..n { for j in 0..n { reach[i][j] = i == j || d[i][j] != 0.0; } }
+                                for k in 0..n { for i in 0..n { for j in 0..n { if reach[i][k] && reach[k][j] { reach[i][j] = true; } } } }
+                                (0..n).all(|i| (0..n).all(|j| reach[i][j]))
+                            };
+                            let key = || format!("{} {:?} A={:?} b={:?} x0={:?} tol={:e}", if irreducible { "IRREDUCIBLE" } else { "reducible" }, s, d, b, x0, tol);
                             let res = catch(|| -> Result<(f64, f64), String> {
                                 let bv = Vector::create(b.clone());
                                 let mut x = Vector::create(x0.clone());
@@ -210,5 +220,39 @@ fn main() {
             },
         );
     }
+    // Representative exact Lanczos breakdowns on strictly diagonally dominant systems (genuine violations of the
+    // statement "every strictly diagonally dominant system", inherent to look-ahead-free Lanczos methods; listed in
+    // known_findings.txt, reported as KNOWN-FINDING by the driver).
+    let reps: Vec<(Solver, D, Vec<f64>, Vec<f64>)> = vec![
+        (Solver::Bicg1, vec![vec![2.0, 1.0], vec![0.0, -1.0]], vec![1.5, 0.5], vec![0.0, 0.0]),
+        (Solver::Bicgstab, vec![vec![2.0, 1.0, 0.0], vec![0.0, 1.0, 0.0], vec![0.0, 0.0, -1.0]], vec![1.5, -0.5, -2.0], vec![0.0, 0.0, 0.0]),
+        (Solver::Qmr, vec![vec![1.5, 0.5], vec![0.0, 1.0]], vec![1.25, -0.5], vec![0.5, -2.0]),
+    ];
+    ctx.known_finding_space("representative exact Lanczos breakdowns (strictly dominant systems)");
+    ctx.lattice(
+        "representative exact Lanczos breakdowns (strictly dominant systems)",
+        reps.len() as u64,
+        |i| format!("{:?} A={:?} b={:?} x0={:?}", reps[i as usize].0, reps[i as usize].1, reps[i as usize].2, reps[i as usize].3),
+        |i, acc| {
+            let (s, d, b, x0) = &reps[i as usize];
+            let n = d.len();
+            acc.nontriv("breakdown representative");
+            let a = sparse_of(d, 0);
+            let key = || format!("breakdown {:?} A={:?} b={:?} x0={:?} tol=1e-6", s, d, b, x0);
+            let res = catch(|| -> Result<(), String> {
+                let bv = Vector::create(b.clone());
+                let mut x = Vector::create(x0.clone());
+                match run(*s, &a, &bv, &mut x, iteration_cap(n), 1e-6) {
+                    Ok(_) => Ok(()),
+                    Err(e) => Err(format!("no success within {} iterations on a strictly diagonally dominant system (Err({:e})); x = {:?}", iteration_cap(n), e, x.vec)),
+                }
+            });
+            match res {
+                Ok(Ok(())) => {}
+                Ok(Err(e)) => acc.fail(i, key(), e),
+                Err(p) => acc.fail(i, key(), format!("unexpected panic: {}", p)),
+            }
+        },
+    );
     std::process::exit(ctx.finish());
 }
